@@ -105,6 +105,19 @@ class C20(Prop):
                     if name.startswith("$"):
                         c.tags.add("dollar-name")
                     out.append(c)
+        # a run that ends in a panic while loop scopes are open, then the host uses the API: the loop's variables are gone, and a
+        # variable the host sets under such a name is the one the next run reads
+        for _ in range(300 if tier == "thorough" else 40):
+            boom = rng.choice(['panic("stop");', "hp();", "x = 1 % 0;", 'panic("stop");'])
+            nest = rng.choice(["foreach n in [1, 2] { %s }", "foreach k, n in [1, 2] { foreach m in [3] { %s } }", "foreach n in [5] { function q() { return 1; } %s }",
+                               "while (true) { foreach n in [1] { %s } }"]) % boom
+            src = "if (Boom) { %s } return n;" % nest
+            objs = gen.enc_struct([("Boom", False)]) + ";" + gen.enc_struct([("Boom", True)])
+            val = rng.choice(["from the host", 7, 2.5, [1, "a"]])
+            ops = ["addfn:%s:panic" % vlib.hx("hp"), "prepare:" + rng.choice(["opt", "noopt"]), rng.choice(["exec:1", "run:1"]), "getvar:%s" % vlib.hx("n"),
+                   "setvar:%s:%s" % (vlib.hx("n"), enc_value(val)), "getvar:%s" % vlib.hx("n"), "exec:0", "getvar:%s" % vlib.hx("n"), "getvar:%s" % vlib.hx("m")]
+            exp = {"o3.get": "n", "o5.get": enc_value(val), "o6.class": "ok", "o6.value": enc_value(val), "o7.get": enc_value(val), "o8.get": "n"}
+            out.append(Case("run", {"script": vlib.hx(src), "objs": objs, "ops": ";".join(ops)}, "api-after-panic", expect=exp, note=src))
         # a function registered again under the same name after a run: later runs call the new one
         for _ in range(40 if tier == "quick" else 400):
             f = rng.choice(["k", "u", "len", "h0"])
